@@ -516,6 +516,20 @@ type env struct {
 func (e *env) hold(what string, w [][]byte, i []int) string {
 	h := &held{what: what, w: w, i: i, str: solnString(w, i)}
 	e.held = append(e.held, h)
+	// the caller extends each returned word with append (the returned slice headers are kept as
+	// they are): a word's spare capacity, if it has any, must be its own - no other returned
+	// value may change.  Search's doc comment puts no restriction on the use of the results.
+	for k := range w {
+		ext := append(w[k], 0xa5, 0x5a, 0xa5)
+		_ = append(ext[:len(w[k])+1], 0x3c) // and once more from the middle of the extension
+	}
+	for k := len(w) - 1; k >= 0; k-- {
+		_ = append(w[k], bytes.Repeat([]byte{0xc3}, 1+k%9)...)
+	}
+	if len(i) > 0 {
+		_ = append(i, -7, -7)
+	}
+	e.revalidate("the caller appending to the words returned by " + what)
 	return h.str
 }
 
